@@ -1,4 +1,5 @@
 pub mod c01;
+pub mod c02;
 pub mod c03;
 pub mod c04;
 pub mod c15;
@@ -8,6 +9,7 @@ use crate::engine::Property;
 pub fn by_id(id: &str) -> Option<Box<dyn Property>> {
     Some(match id {
         "C01" => Box::new(c01::C01),
+        "C02" => Box::new(c02::C02),
         "C03" => Box::new(c03::C03),
         "C04" => Box::new(c04::C04),
         "C15" => Box::new(c15::C15),
